@@ -1847,7 +1847,7 @@ lyd_diff_merge_delete(struct lyd_node *diff_match, enum lyd_diff_op cur_op, cons
         /* it was created, but then deleted -> set NONE operation */
         LY_CHECK_RET(lyd_diff_change_op(diff_match, LYD_DIFF_OP_NONE));
 
-        if (diff_match->schema->nodetype & LYD_NODE_TERM) {
+        if (diff_match->schema && (diff_match->schema->nodetype & LYD_NODE_TERM)) {
             /* add orig-default meta because it is expected */
             LY_CHECK_RET(lyd_new_meta(LYD_CTX(src_diff), diff_match, NULL, "yang:orig-default",
                     src_diff->flags & LYD_DEFAULT ? "true" : "false", LYD_NEW_VAL_STORE_ONLY, NULL));
@@ -2068,6 +2068,9 @@ lyd_diff_merge_r(const struct lyd_node *src_diff, struct lyd_node *diff_parent, 
         case LYD_DIFF_OP_CREATE:
             if ((cur_op == LYD_DIFF_OP_CREATE) && lysc_is_dup_inst_list(diff_node->schema)) {
                 /* special case of creating duplicate (leaf-)list instances */
+                goto add_diff;
+            } else if (!src_diff->schema) {
+                /* opaque nodes are matched only by name, keep the operation on the found one and add this one */
                 goto add_diff;
             }
 
